@@ -12,6 +12,7 @@ import ModVerif.Proofs.EditSpecSet
 import ModVerif.Proofs.EditSpecSort
 import ModVerif.Proofs.EditSpecCmp
 import ModVerif.Model.Modfile.EditAbs
+import ModVerif.Proofs.EditModel
 namespace ModVerif.Props.C16
 open ModVerif ModVerif.EditSpec ModVerif.Modfile
 
@@ -107,6 +108,26 @@ theorem useSemanticSortForExclude_examples :
     useSemanticSortForExclude (some (B "1.20")) = false ∧ useSemanticSortForExclude none = false ∧
     useSemanticSortForExclude (some (B "1.22rc1")) = false := by decide +kernel
 
+
+
+/-- **blocks_sorted (partial).** `File.SortBlocks` is `removeDups` followed by `sortStmts useSemantic false`,
+    `WorkFile.SortBlocks` by `sortStmts false true`; every bulk setter and `AddTool` end with it.  After
+    `sortStmts` each block's lines are sorted by the comparator the code selects for it, and are a permutation of a
+    block of the input — for every block except an `exclude` block under the semantic order, where
+    `lineExcludeLess` is a strict weak order only on two-token lines (`lineExcludeLess_strictWeak_on_pairs`;
+    missing: the invariant that a strictly parsed exclude block holds only two-token or removed lines).
+    Sortedness is preserved by Cleanup, which only deletes lines. -/
+theorem blocks_sorted_partial (sem work : Bool) (stmts : List Expr) (b : LineBlock)
+    (hb : Expr.lineBlock b ∈ Edit.sortStmts sem work stmts)
+    (hx : work = true ∨ (Edit.headIs b.token (B "exclude") && sem) = false) :
+    StrictWeak (Edit.lessFor sem work b.token) ∧
+    Sorted (Edit.onToken (Edit.lessFor sem work b.token)) b.lines ∧
+    ∃ b0, Expr.lineBlock b0 ∈ stmts ∧ b.lines.Perm b0.lines := by
+  rcases Edit.sortStmts_block sem work stmts b hb with ⟨b0, hb0, htok, hlines⟩
+  have hsw := Edit.lessFor_strictWeak sem work b.token hx
+  refine ⟨hsw, ?_, b0, hb0, ?_⟩
+  · rw [hlines, ← htok]; exact (Edit.stableSort_sorted hsw _).1
+  · rw [hlines, ← htok]; exact (Edit.stableSort_sorted hsw _).2
 
 /-- Recorded finding G3 (known_findings.json): with a pre-release go version ≥ 1.21 (`go 1.21rc1`) SortBlocks
     orders an exclude block lexically — `v1.10.0` before `v1.9.0` — which is not the documented
